@@ -173,6 +173,9 @@ func CopyState(from, to []*metrics.Metric) error {
 		if m.Name != n.Name || m.Type != n.Type {
 			return fmt.Errorf("metric %d differs: %s/%v vs %s/%v", i, m.Name, m.Type, n.Name, n.Type)
 		}
+		if m.Type == metrics.Buckets {
+			continue // histograms only occur as the target of a faulting `++`; nothing is ever observed
+		}
 		// a fresh scalar counter already holds one datum; anything else the copy must not keep
 		for _, lv := range append([]*metrics.LabelValue{}, n.LabelValues...) {
 			if err := n.RemoveDatum(lv.Labels...); err != nil {
